@@ -16,7 +16,7 @@ theorem each_focus_once (sg dg : Graph) (node : Term) : (focusNodes sg dg node).
   Pyshacl.focus_nodup sg dg node
 
 /-- a shape without targets validates nothing by itself -/
-theorem no_targets_validates_nothing (c : Ctx) (fuel : Nat) (s : Shape)
+theorem no_targets_validates_nothing (c : Ctx) (fuel : Nat) (s : Shape) (hadv : c.o.advanced = false)
     (h : ∀ n, ¬ IsTarget c.sg c.dg s.node n) :
     validateShape c fuel s none none = .ok (true, []) := by
   have hf : focusNodes c.sg c.dg s.node = [] := by
@@ -25,12 +25,18 @@ theorem no_targets_validates_nothing (c : Ctx) (fuel : Nat) (s : Shape)
     | cons x xs =>
       exfalso
       exact h x ((Pyshacl.focus_exact c.sg c.dg s.node x).1 (by rw [hfl]; simp))
-  cases fuel <;> simp [validateShape, validateBody, resolveFocus, hf]
+  cases fuel <;> simp [validateShape, validateBody, resolveFocus, hf, hadv]
 
-/-- the focus list a top-level evaluation works on is the target set (filtered by `focus_nodes` if given) -/
-theorem toplevel_focus_from_targets (c : Ctx) (s : Shape) (fl : List Term)
-    (h : resolveFocus c s none = some fl) : ∀ n ∈ fl, IsTarget c.sg c.dg s.node n := by
+/-- the focus list a top-level evaluation works on is the target set — plus, in advanced mode, the `?this`
+    solutions `extra` of the shape's custom targets — filtered by `focus_nodes` if given -/
+theorem toplevel_focus_from_targets (c : Ctx) (s : Shape) (extra fl : List Term)
+    (h : resolveFocus c s none extra = some fl) : ∀ n ∈ fl, IsTarget c.sg c.dg s.node n ∨ n ∈ extra := by
   intro n hn
+  have key : n ∈ focusNodes c.sg c.dg s.node ++ extra → IsTarget c.sg c.dg s.node n ∨ n ∈ extra := by
+    intro hm
+    rcases List.mem_append.mp hm with h1 | h1
+    · exact .inl ((Pyshacl.focus_exact _ _ _ _).1 h1)
+    · exact .inr h1
   unfold resolveFocus at h
   simp only [] at h
   split at h
@@ -41,13 +47,25 @@ theorem toplevel_focus_from_targets (c : Ctx) (s : Shape) (fl : List Term)
         · cases h
         · cases h
           rw [mem_dedup, List.mem_filter] at hn
-          exact (Pyshacl.focus_exact _ _ _ _).1 hn.1
+          exact key hn.1
       · cases h
         rw [mem_dedup] at hn
-        exact (Pyshacl.focus_exact _ _ _ _).1 hn
+        exact key hn
     · cases h
       rw [mem_dedup] at hn
-      exact (Pyshacl.focus_exact _ _ _ _).1 hn
+      exact key hn
+
+/-- advanced mode: every `?this` solution of a custom target is validated (absent a `focus_nodes` filter) -/
+theorem advanced_targets_validated (c : Ctx) (s : Shape) (extra : List Term) (hf : c.o.focusNodes = none)
+    (n : Term) (hn : n ∈ extra) : ∃ fl, resolveFocus c s none extra = some fl ∧ n ∈ fl := by
+  unfold resolveFocus
+  simp only [hf]
+  have hne : focusNodes c.sg c.dg s.node ++ extra ≠ [] := by
+    intro h0
+    have : n ∈ focusNodes c.sg c.dg s.node ++ extra := List.mem_append.mpr (.inr hn)
+    rw [h0] at this; cases this
+  simp only [hne, if_false]
+  exact ⟨_, rfl, by rw [mem_dedup]; exact List.mem_append.mpr (.inr hn)⟩
 
 /-! non-vacuity: a subclass cycle and an instance of a subclass -/
 def exN (s : String) : Term := .iri ("http://ex.test/" ++ s)
